@@ -19,7 +19,7 @@ RULE = (
 )
 BOUNDS = {
     "quick": "33 jobs (three under non-default dialects, two on a file with blank records, two on a file whose header cells need non-idempotent cleaning): 33 fresh-process references + 16 warm-cache fresh processes; all 1,089 ordered pairs (fresh CsvPaths per job) + 256 ordered pairs of CsvPaths jobs on ONE shared instance + 1,000 triples over a 10-job subset; 5 direct-vs-managed twin pairs",
-    "thorough": "all pairs, all 35,937 triples, shared-instance triples, sequences of 4 over a 6-job subset",
+    "thorough": "all pairs, all 35,937 triples, shared-instance triples, sequences of 4 over a 6-job subset, of 5 over 4 jobs, of 6 over 3 jobs",
 }
 CHUNK = 20
 BUDGET = {"quick": 600, "thorough": 3400}
@@ -139,6 +139,10 @@ def cases(tier, seed):
         yield {"hist": list(t)}
     if tier == "thorough":
         for t in itertools.product(SUB6, repeat=4):
+            yield {"hist": list(t)}
+        for t in itertools.product(SUB6[:4], repeat=5):
+            yield {"hist": list(t)}
+        for t in itertools.product([5, 14, 17], repeat=6):
             yield {"hist": list(t)}
 
 
